@@ -408,3 +408,6 @@ MUTANTS.append(Mutant("timing-exit-returns-elapsed", "src/wormhole/timing.py", "
                       also=(("src/wormhole/timing.py", "        self.detail(**details)\n\n    def __enter__", "        self.detail(**details)\n        return round(self._stop - self._start, 2)\n\n    def __enter__"),)))
 MUTANTS.append(Mutant("walk-drops-empty-dirs", TX, "walk(what, preserve_empty=True, followlinks=True)", "walk(what, preserve_empty=False, followlinks=True)", "C04.R7"))
 REWRITES.append(Rewrite("timing-exit-explicit-false", "src/wormhole/timing.py", "    def __exit__(self, exc_type, exc_value, exc_tb):\n        self.finish()", "    def __exit__(self, exc_type, exc_value, exc_tb):\n        self.finish()\n        return False", desc="explicit no-suppress"))
+
+MUTANTS.append(Mutant("explain-and-swallow-connection-closed", RX, "        d = self._go(w)\n", "        d = self._go(w)\n        d.addErrback(lambda f: f.trap(TransferError))\n", "C04.R12", "seed C04-18"))
+MUTANTS.append(Mutant("skip-directory-members", RX, "                for info in zf.infolist():\n", "                for info in zf.infolist():\n                    if info.is_dir():\n                        continue\n", ("C04.R13", "C04.R"), "seed C04-19"))
